@@ -395,7 +395,7 @@ func drawLifecycleSchema(rt *rapid.T, name string) model.Schema {
 	return s
 }
 
-const ruleC18 = "rapid state machine over two independent clients of each SDK and up to three table names: CreateTable with generated configurations (billing modes, S/N/B key schemas, 0-3 global/local indexes, tables reusing attribute names with different declared types, and invalid ones: missing attribute definition, no hash key, empty index lists, missing provisioned throughput), the AddTable helper, DeleteTable, UpdateTable index creation / deletion, ClearTable, DescribeTable, interleaved with Put / Delete / Scan on every table; reference catalogue model per client: ResourceInUse on duplicate create, ResourceNotFound on a missing table or index, a new table is empty with the declared schema and indexes, descriptions report current item and per-index counts; after every step every table of every client is scanned (and every index read) and compared, so cross-table and cross-client leakage and resurrected contents are visible. Non-trivial = history with a delete-then-recreate of a non-empty table, or operations on >= 2 tables and both clients; distinct = hash of the step list."
+const ruleC18 = "rapid state machine over two independent clients of each SDK and up to three table names: CreateTable with generated configurations (billing modes, S/N/B key schemas, 0-3 global/local indexes, tables reusing attribute names with different declared types, and invalid ones: missing attribute definition, no hash key, empty index lists, missing provisioned throughput), the AddTable helper, DeleteTable, UpdateTable index creation / deletion, ClearTable, DescribeTable, interleaved with Put / Delete / Scan on every table; reference catalogue model per client: ResourceInUse on duplicate create, ResourceNotFound on a missing table or index, a new table is empty with the declared schema and indexes, descriptions report current item and per-index counts; after every step every table of every client is scanned (and every index read) and compared, so cross-table and cross-client leakage and resurrected contents are visible. One case in twenty also grows a table's index set to DynamoDB's quotas (1-5 local indexes, global indexes up to 20, the later ones created on the existing table), every creation being required to succeed and DescribeTable to list them all. Non-trivial = history with a delete-then-recreate of a non-empty table, or operations on >= 2 tables and both clients; distinct = hash of the step list."
 
 // TestC18 decides property C18.
 func TestC18(t *testing.T) {
@@ -448,7 +448,47 @@ func TestC18(t *testing.T) {
 		pick := func(rt *rapid.T) (int, string) {
 			return rapid.IntRange(0, 1).Draw(rt, "client"), rapid.SampledFrom(names).Draw(rt, "table")
 		}
+		quotaDone := false
 		rt.Repeat(map[string]func(*rapid.T){
+			"indexQuota": func(rt *rapid.T) {
+				// a table whose index set grows to DynamoDB's quotas: 1-5 local and up to
+				// 20 global indexes, the later global ones created on the existing table
+				if quotaDone || rapid.IntRange(0, 19).Draw(rt, "reallyQuota") != 11 {
+					return
+				}
+				quotaDone = true
+				ci := rapid.IntRange(0, 1).Draw(rt, "client")
+				if ws[ci].m.Tables["tblQ"] != nil {
+					return
+				}
+				s := model.Schema{Table: "tblQ", Hash: "pk", Range: "sk", Attrs: map[string]string{"pk": "S", "sk": "S"}, Billing: "PAY_PER_REQUEST"}
+				nl := rapid.IntRange(1, 5).Draw(rt, "quotaLSIs")
+				for i := 0; i < nl; i++ {
+					a := fmt.Sprintf("l%d", i+1)
+					s.Attrs[a] = "S"
+					s.Indexes = append(s.Indexes, model.IndexSchema{Name: "lsi" + a, Hash: "pk", Range: a})
+				}
+				g0 := rapid.IntRange(0, 12).Draw(rt, "quotaInitialGSIs")
+				gsi := func(i int) (model.IndexSchema, map[string]string) {
+					a := fmt.Sprintf("q%d", i+1)
+					return model.IndexSchema{Name: "gsi" + a, Hash: a, Global: true, NoThroughput: true}, map[string]string{a: "S"}
+				}
+				for i := 0; i < g0; i++ {
+					ix, attrs := gsi(i)
+					s.Attrs[ix.Hash] = attrs[ix.Hash]
+					s.Indexes = append(s.Indexes, ix)
+				}
+				if _, status := step(ci, model.Op{Kind: "CreateTable", Schema: &s}); status != stepDone {
+					return
+				}
+				step(ci, model.Op{Kind: "Put", Table: "tblQ", Item: model.Item{"pk": model.Str("a"), "sk": model.Str("b"), "l1": model.Str("x"), "q1": model.Str("y"), "q20": model.Str("z")}})
+				for i := g0; i < model.MaxGSI; i++ {
+					ix, attrs := gsi(i)
+					step(ci, model.Op{Kind: "AddIndex", Table: "tblQ", IndexSchema: &ix, IndexAttrs: attrs})
+				}
+				step(ci, model.Op{Kind: "DescribeTable", Table: "tblQ"})
+				st.Class("index-set-grown-to-the-quotas")
+			},
 			"create": func(rt *rapid.T) {
 				ci, tn := pick(rt)
 				s := drawLifecycleSchema(rt, tn)
